@@ -345,6 +345,29 @@ fn msg_case<T: Elem>(w: &mut W, n: usize, rot: usize, q: usize) {
             }
         }
 
+        // (b') a builder that already held a body (a longer typed array, raw bytes with spare capacity, JSON)
+        // when the bulk setter is called builds exactly the same message: the last body set is the body
+        {
+            let longer: Vec<T> = make(n + 3, (rot + 1) % 3);
+            let mut spare = Vec::with_capacity(bulk.body.len() + 4096);
+            spare.extend_from_slice(b"previous raw body");
+            let rebuilt = [
+                ("typed-then-typed", base_builder(q).body_typed_slice(&longer).body_typed_slice(&v).build()),
+                ("bytes-then-typed", base_builder(q).body_bytes(spare).body_typed_slice(&v).build()),
+                ("json-then-typed", base_builder(q).body_json(&json!({"old": [1, 2, 3], "pad": "x".repeat(bulk.body.len() + 64)})).expect("body_json").body_typed_slice(&v).build()),
+            ];
+            w.add(C::impl_calls, 3);
+            for (what, m) in rebuilt {
+                if m.body != bulk.body || m.header.body_format != bulk.header.body_format || m.header.body_length != bulk.header.body_length || m.header.length != bulk.header.length {
+                    w.fail(
+                        format!("C08:builder-body-replaced:{what}"),
+                        || format!("{}[{n}] q={q}: a builder whose body was set before ({what}) built body {} (format {}, body_length {}), a fresh builder builds {}", T::NAME, hex(&m.body), m.header.body_format, m.header.body_length, hex(&bulk.body)),
+                        &case,
+                    );
+                }
+            }
+        }
+
         // (c) streamed frame == built frame
         let mut h = Header::new();
         h.id = REQ_ID;
